@@ -125,6 +125,12 @@ mod worker {
         }
         match r {
             Ok(code) => {
+                // the expansion must at least be syntactically valid Rust
+                if !code.contains("compile_error") {
+                    if let Err(e) = syn::parse_str::<syn::File>(&code) {
+                        return json!({"status": "unparsable_output", "msg": format!("expansion is not valid Rust syntax: {}", e)});
+                    }
+                }
                 if code.contains("compile_error") {
                     json!({"status": "compile_error", "msg": code})
                 } else if want_code {
